@@ -100,14 +100,14 @@ Lemma get_int64_fst c k :
   fst (ctx_get_int64 c k) = match int_at c k with Some z => z | None => 0 end.
 Proof.
   unfold ctx_get_int64, ctx_get, int_at.
-  destruct (smap_get c k) as [[| z | l | t]|]; reflexivity.
+  destruct (smap_get c k) as [[| z | l | t | zi]|]; reflexivity.
 Qed.
 
 Lemma gen_atomicGetWindow p key m now :
   Gen.atomicGetWindow p (wkey key) now = win_start_ns (repr_ks p key m) now.
 Proof.
   unfold Gen.atomicGetWindow, win_start_ns, repr_ks, int_at, ctx_get_int64, ctx_get. cbn [ws].
-  destruct (smap_get (Gen.ms_contextMemory p) (wkey key)) as [[| z | l | t]|]; cbn; try reflexivity.
+  destruct (smap_get (Gen.ms_contextMemory p) (wkey key)) as [[| z | l | t | zi]|]; cbn; try reflexivity.
   unfold time_unix, ns_per_sec, sec. lia.
 Qed.
 
@@ -237,3 +237,250 @@ Proof.
   pose proof (get_int64_fst (Gen.ms_contextMemory p) k) as H.
   destruct (ctx_get_int64 (Gen.ms_contextMemory p) k) as [z e]. cbn in H. subst z. reflexivity.
 Qed.
+
+(* ================================================================ quota level *)
+
+(* theories/C01/GenQuota.v is regenerated from streams/resources/quota/
+   fixed_strategy.go (quota.Inc / Allowed / Dec / ResetIn and their helpers
+   getCountFromContext, storeCountIntoContext, onWindowRestart); the interface
+   calls q.context.* are resolved to the generated memoryState functions above.
+
+   The code keeps the memo allowedByReqID as a Go map keyed by the request id
+   STRING; the model keeps an association list keyed by Z tokens, newest first.
+   Both are read only through look-ups, so the tie is a simulation RELATION
+   (not a function): [R tok q ks] says the two store entries of q's key are the
+   ws/cnt of ks and the two memos agree on every look-up, for an injective
+   tokenisation [tok] of request ids.  The theorems say: related states, same
+   inputs => same result and related states again, against Model.kinc /
+   kallowed / kdec / kresetin themselves. *)
+From Verif Require C01.GenQuota.
+
+Section QuotaLevel.
+
+Variable tok : gostring -> Z.
+Hypothesis tok_inj : forall a b, tok a = tok b -> a = b.
+
+Definition memo_rel (gm : smap bool) (mm : list (Z * bool)) : Prop :=
+  forall s, map_get gostring_eqb gm s = lookup (tok s) mm.
+
+Definition R (q : GenQuota.quota) (ks : kstate) : Prop :=
+  ks = repr_ks (GenQuota.quota_context q) (GenQuota.quota_currentCountKey q) (memo ks)
+  /\ memo_rel (GenQuota.quota_allowedByReqID q) (memo ks).
+
+(* the configuration of the quota object: never changed by the translated functions *)
+Definition same_config (q q' : GenQuota.quota) : Prop :=
+  GenQuota.quota_window q' = GenQuota.quota_window q
+  /\ GenQuota.quota_maxCount q' = GenQuota.quota_maxCount q
+  /\ GenQuota.quota_currentCountKey q' = GenQuota.quota_currentCountKey q
+  /\ GenQuota.quota_spilloverCountKey q' = GenQuota.quota_spilloverCountKey q
+  /\ GenQuota.quota_withSpillover q' = GenQuota.quota_withSpillover q.
+
+Definition repr_inc (r : GenQuota.incResult) : option incres :=
+  match r with
+  | GenQuota.alreadyIncreased => Some AlreadyIncreased
+  | GenQuota.increased => Some Increased
+  | GenQuota.blocked => Some Blocked
+  | _ => None
+  end.
+
+(* the cost the quota charges for a stream: extractCountF's value, 0 when it fails *)
+Definition cost_of_stream (a : apistream) : Z :=
+  match as_count a with (c, ErrNil) => c | (_, Err _) => 0 end.
+
+(* ---- memo facts *)
+
+Lemma lookup_mremove z r (m : list (Z * bool)) :
+  lookup z (mremove r m) = if z =? r then None else lookup z m.
+Proof.
+  unfold mremove. induction m as [|[y b] m IH]; cbn.
+  - now destruct (z =? r).
+  - destruct (y =? r) eqn:Eyr; cbn.
+    + rewrite IH. destruct (z =? r) eqn:Ezr; [reflexivity|].
+      destruct (z =? y) eqn:Ezy; [|reflexivity]. lia.
+    + rewrite IH. destruct (z =? y) eqn:Ezy.
+      * destruct (z =? r) eqn:Ezr; [lia|reflexivity].
+      * reflexivity.
+Qed.
+
+Lemma tok_eqb a b : (tok a =? tok b) = gostring_eqb a b.
+Proof.
+  destruct (gostring_eqb a b) eqn:E.
+  - apply gostring_eqb_eq in E; subst. apply Z.eqb_refl.
+  - apply Z.eqb_neq. intros H. apply tok_inj in H. subst.
+    now rewrite gostring_eqb_refl in E.
+Qed.
+
+Lemma memo_rel_nil : memo_rel [] [].
+Proof. intros s. reflexivity. Qed.
+
+Lemma memo_rel_set gm mm s v :
+  memo_rel gm mm -> memo_rel (map_set gostring_eqb gm s v) ((tok s, v) :: mm).
+Proof.
+  intros H s'. cbn [lookup]. rewrite tok_eqb.
+  destruct (gostring_eqb s' s) eqn:E.
+  - apply gostring_eqb_eq in E; subst. apply (map_get_set_same gostring_eqb gostring_eqb_eq).
+  - rewrite (map_get_set_other gostring_eqb gostring_eqb_eq); [apply H|].
+    intros ->. now rewrite gostring_eqb_refl in E.
+Qed.
+
+Lemma memo_rel_set2 gm mm s v w :
+  memo_rel gm mm ->
+  memo_rel (map_set gostring_eqb (map_set gostring_eqb gm s w) s v) ((tok s, v) :: mm).
+Proof.
+  intros H s'. cbn [lookup]. rewrite tok_eqb.
+  destruct (gostring_eqb s' s) eqn:E.
+  - apply gostring_eqb_eq in E; subst. apply (map_get_set_same gostring_eqb gostring_eqb_eq).
+  - assert (Hn : s' <> s) by (intros ->; now rewrite gostring_eqb_refl in E).
+    rewrite !(map_get_set_other gostring_eqb gostring_eqb_eq) by exact Hn. apply H.
+Qed.
+
+Lemma memo_rel_delete gm mm s :
+  memo_rel gm mm -> memo_rel (map_delete gostring_eqb gm s) (mremove (tok s) mm).
+Proof.
+  intros H s'. rewrite lookup_mremove, tok_eqb.
+  destruct (gostring_eqb s' s) eqn:E.
+  - apply gostring_eqb_eq in E; subst. apply map_get_delete_same.
+  - rewrite (map_get_delete_other gostring_eqb gostring_eqb_eq); [apply H|].
+    intros ->. now rewrite gostring_eqb_refl in E.
+Qed.
+
+(* ---- store facts *)
+
+Lemma key_not_built key suf : key <> Gen.buildKey (Gen.mk_ms []) key suf.
+Proof.
+  rewrite buildKey_eq. intros H.
+  rewrite <- (app_nil_r key) in H at 1. apply app_inv_head in H. discriminate H.
+Qed.
+
+(* a write to the raw key (storeCountIntoContext) does not touch the two built
+   entries the window logic reads *)
+Lemma repr_ks_raw_store p key v m :
+  repr_ks (fst (Gen.ms_Set p key v)) key m = repr_ks p key m.
+Proof.
+  unfold Gen.ms_Set.
+  destruct (ctx_set (Gen.ms_contextMemory p) key (VInt64 v)) as [o r] eqn:E. cbn [fst].
+  unfold ctx_set in E. destruct key as [|x k'].
+  - inversion E; subst. destruct p; reflexivity.
+  - inversion E; subst. unfold repr_ks, int_at.
+    cbn [Gen.ms_contextMemory Gen.set_ms_contextMemory].
+    rewrite !smap_get_set_other; [reflexivity| |].
+    + intros H; symmetry in H; revert H; apply key_not_built.
+    + intros H; symmetry in H; revert H; apply key_not_built.
+Qed.
+
+Lemma gen_store q c k :
+  GenQuota.storeCountIntoContext q c k
+  = GenQuota.set_quota_context (fst (Gen.ms_Set (GenQuota.quota_context q) k c)) q.
+Proof.
+  unfold GenQuota.storeCountIntoContext.
+  destruct (Gen.ms_Set (GenQuota.quota_context q) k c) as [o r]. cbn [fst].
+  destruct (negb (err_is_nil r)); reflexivity.
+Qed.
+
+(* ---- quota.Inc *)
+
+Theorem C01_gen_quota_Inc : forall q ks a now,
+  GenQuota.quota_withSpillover q = false ->
+  R q ks ->
+  let '(q', res) := GenQuota.quota_Inc q a now now in
+  let '(ks', res', _) := kinc (GenQuota.quota_maxCount q) (GenQuota.quota_window q) ks
+                              (tok (as_id a)) now (cost_of_stream a) in
+  R q' ks' /\ repr_inc res = Some res' /\ same_config q q'.
+Proof.
+  intros q ks a now Hsp [Hks Hm].
+  destruct q as [W mx K SK wsp ctx al]. cbn in Hsp, Hks, Hm. subst wsp.
+  cbn [GenQuota.quota_maxCount GenQuota.quota_window].
+  rewrite kinc_is_inc_window.
+  unfold GenQuota.quota_Inc, map_lookup.
+  cbn [GenQuota.quota_allowedByReqID].
+  rewrite (Hm (as_id a)).
+  destruct (lookup (tok (as_id a)) (memo ks)) as [b|] eqn:Elk.
+  { (* already counted *)
+    split; [split; [exact Hks|exact Hm]|]. split; [reflexivity|]. repeat split. }
+  cbn [GenQuota.quota_withSpillover GenQuota.set_quota_allowedByReqID GenQuota.quota_window
+       GenQuota.quota_maxCount GenQuota.quota_currentCountKey GenQuota.quota_spilloverCountKey
+       GenQuota.quota_context GenQuota.quota_allowedByReqID].
+  change (0 <? 0) with false. cbv iota.
+  (* the charge: extractCountF's value, 0 on error — the same continuation either way *)
+  destruct (as_count a) as [c0 [|t0]] eqn:Eas; unfold cost_of_stream; rewrite Eas;
+    cbn [err_is_nil negb]; cbv zeta.
+  all: match goal with |- context [Gen.AtomicIncWindow ?cx ?k ?cost ?w ?m ?n ?n] =>
+         pose proof (C01_gen_AtomicIncWindow cx k cost w m n (memo ks)) as H;
+         destruct (Gen.AtomicIncWindow cx k cost w m n n) as [[[p' c'] rst] err];
+         rewrite <- Hks in H;
+         destruct (inc_window m w ks n cost) as [ks1 [[c1 r1] ok]];
+         destruct H as (Hks1 & Hc & Hr & Hok); subst c1 r1 ok
+       end.
+  all: rewrite ?gen_store;
+       cbn [GenQuota.onWindowRestart GenQuota.set_quota_allowedByReqID GenQuota.set_quota_context
+            GenQuota.quota_allowedByReqID GenQuota.quota_context GenQuota.quota_currentCountKey
+            GenQuota.quota_window GenQuota.quota_maxCount GenQuota.quota_spilloverCountKey
+            GenQuota.quota_withSpillover].
+  all: destruct rst; destruct (err_is_nil err); cbn [negb]; unfold map_index;
+       rewrite ?(map_get_set_same gostring_eqb gostring_eqb_eq); cbn [map_get]; cbv iota beta.
+  all: (split; [split|split; [reflexivity|repeat split]]).
+  all: cbn [memo ws cnt GenQuota.onWindowRestart GenQuota.set_quota_allowedByReqID GenQuota.set_quota_context
+            GenQuota.quota_allowedByReqID GenQuota.quota_context GenQuota.quota_currentCountKey
+            GenQuota.quota_window GenQuota.quota_maxCount GenQuota.quota_spilloverCountKey
+            GenQuota.quota_withSpillover].
+  all: try (rewrite repr_ks_raw_store; rewrite <- Hks1; reflexivity).
+  all: try (apply memo_rel_set2; exact Hm).
+  all: try (apply memo_rel_set; first [exact Hm | apply memo_rel_nil]).
+  all: try apply memo_rel_nil.
+Qed.
+
+(* ---- quota.Allowed, quota.Dec, quota.ResetIn *)
+
+Lemma repr_ks_memo p K ks M :
+  ks = repr_ks p K (memo ks) -> {| ws := ws ks; cnt := cnt ks; memo := M |} = repr_ks p K M.
+Proof. intros H. rewrite H. reflexivity. Qed.
+
+Theorem C01_gen_quota_Allowed : forall q ks a,
+  R q ks ->
+  let '(q', b) := GenQuota.quota_Allowed q a in
+  let '(ks', b') := kallowed ks (tok (as_id a)) in
+  R q' ks' /\ b = b' /\ same_config q q'.
+Proof.
+  intros q ks a [Hks Hm].
+  destruct q as [W mx K SK wsp ctx al]. cbn in Hks, Hm.
+  unfold GenQuota.quota_Allowed, map_lookup, kallowed.
+  cbn [GenQuota.quota_allowedByReqID]. rewrite (Hm (as_id a)).
+  destruct (lookup (tok (as_id a)) (memo ks)) as [v|]; cbn [negb].
+  - split; [split|split; [reflexivity|repeat split]].
+    + cbn. apply repr_ks_memo. exact Hks.
+    + cbn. apply memo_rel_delete. exact Hm.
+  - split; [split; [exact Hks|exact Hm]|]. split; [reflexivity|repeat split].
+Qed.
+
+Theorem C01_gen_quota_Dec : forall q ks a,
+  R q ks ->
+  R (GenQuota.quota_Dec q a) (kdec ks (tok (as_id a)))
+  /\ same_config q (GenQuota.quota_Dec q a).
+Proof.
+  intros q ks a [Hks Hm].
+  destruct q as [W mx K SK wsp ctx al]. cbn in Hks, Hm.
+  unfold GenQuota.quota_Dec, kdec. split; [split|repeat split].
+  - cbn. apply repr_ks_memo. exact Hks.
+  - cbn. apply memo_rel_delete. exact Hm.
+Qed.
+
+Theorem C01_gen_quota_ResetIn : forall q ks now,
+  R q ks ->
+  let '(q', _) := GenQuota.quota_ResetIn q now now in
+  R q' (kresetin (GenQuota.quota_window q) ks now) /\ same_config q q'.
+Proof.
+  intros q ks now [Hks Hm].
+  destruct q as [W mx K SK wsp ctx al]. cbn in Hks, Hm.
+  unfold GenQuota.quota_ResetIn, kresetin.
+  cbn [GenQuota.quota_context GenQuota.quota_currentCountKey GenQuota.quota_window].
+  pose proof (C01_gen_AtomicWindowResetIn ctx K W now (memo ks)) as H.
+  destruct (Gen.AtomicWindowResetIn ctx K W now now) as [[rem rst] err].
+  destruct H as (Hr & _ & He). subst err rst. rewrite <- Hks. cbn [err_is_nil negb].
+  destruct (expired W ks now).
+  - split; [split|repeat split].
+    + cbn. apply repr_ks_memo. exact Hks.
+    + cbn. apply memo_rel_nil.
+  - split; [split; [exact Hks|exact Hm]|repeat split].
+Qed.
+
+End QuotaLevel.
